@@ -751,8 +751,21 @@ def gen_brk():
         scenario("brk-%02d" % n, "brk", doc(css, inner), expect=dict(flows={"main": flow}, page_w=120, page_h=H, conserve=True, line_height=10))
 
 
+def gen_feat2():
+    # @counter-style (author defined, extends, fallback) in an inline sheet and in a linked sheet; @font-face in a linked sheet
+    css = page_css(260, 160, 10) + BASE + ('@counter-style stars { system: symbolic; symbols: "*"; suffix: " " }\n@counter-style abc { system: alphabetic; symbols: a b c; prefix: "(" ; suffix: ") " }\n'
+                                            '@counter-style ext { system: extends abc; pad: 3 "0" }\nol.s { list-style: stars } ol.a { list-style: abc } ol.e { list-style: ext } ol.l { list-style: linked }\nol { margin: 0; padding-left: 50px }\n.lf { font-family: linkedfont, ahem }\n')
+    linked = '@counter-style linked { system: fixed 5; symbols: x y z; fallback: abc; suffix: "> " }\n@font-face { font-family: linkedfont; src: url(lf.otf) }\n'
+    W = words("w", 16)
+    body = "".join('<ol class=%s>%s</ol>' % (cls, "".join("<li>%s</li>" % w for w in W[i * 4:i * 4 + 4])) for i, cls in enumerate("sael")) + '<p class=lf>f001 f002</p>'
+    scenario("feat-05", "feat", doc(css, body, '<link rel=stylesheet href="cs.css">'),
+             files={"cs.css": (linked, dict(mime="text/css", kind="css")), "lf.otf": (resfile("weasyprint.otf"), dict(mime="font/otf", kind="font"))},
+             expect=dict(margin=True, page_w=260, page_h=160, sentinels=W, line_height=12, fault_words={"lf.otf": ["f001", "f002"], "cs.css": ["f001", "f002"]}))
+
+
 def main():
     gen_pag()
+    gen_feat2()
     gen_brk()
     gen_feat()
     gen_oof()
